@@ -134,6 +134,10 @@ structure UseCfg where
   useMovements : Bool := false
   /-- the client calls `update_weather_from_distribution` -/
   weatherFromDistribution : Bool := false
+  /-- `Config::movement_stochasticity`. Nothing in the library reads it, so nothing in the model of
+      the code (`uses`, `usesRun`, the skeletons) depends on it; it matters only for what the
+      property allows (`specUses`, Model/StreamSpec.lean; open finding F29). -/
+  movementStochastic : Bool := true
 deriving Repr, Inhabited, DecidableEq
 
 /-- Streams the dispersal kernel of the spread action may draw from
